@@ -89,7 +89,7 @@ def run(ctx):
     # monitor-loop level scripts: E unreadable file, G garbage file, M version mismatch, H healthy,
     # B healthy with a large non-ASCII connection summary, I/F/X install attempt (succeeded / failed / tool missing)
     polls = []
-    polls += ["FHH", "XHHB", "IHBH", "F" + "E" * 19 + "HBH", "B" * 3, "E" * 20 + "B" + "E" + "BB", "M" * 20 + "FHH"]
+    polls += ["FHH", "XHHB", "IHBH", "F" + "E" * 19 + "HBH", "B" * 9, "HB" * 6, "E" * 20 + "B" + "E" + "BB", "M" * 20 + "FHH"]
     for n in (18, 19, 20, 21, 22):
         for a in "EGM":
             polls.append(a * n + "HEH")
